@@ -108,7 +108,18 @@ impl Shards {
         self.runs += 1;
         self.ev(serde_json::json!({"op":"Run","scn":scn}));
     }
-    pub fn ev(&mut self, v: serde_json::Value) {
+    pub fn ev(&mut self, mut v: serde_json::Value) {
+        // the Json module of TLC has no null: a NaN that slipped into a numeric field (serde writes
+        // it as null) becomes the string "NaN", which no numeric conjunct of a specification accepts
+        fn denull(v: &mut serde_json::Value) {
+            match v {
+                serde_json::Value::Null => *v = serde_json::Value::String("NaN".into()),
+                serde_json::Value::Array(a) => a.iter_mut().for_each(denull),
+                serde_json::Value::Object(o) => o.values_mut().for_each(denull),
+                _ => {}
+            }
+        }
+        denull(&mut v);
         let f = &mut self.files[self.cur];
         serde_json::to_writer(&mut *f, &v).unwrap();
         f.write_all(b"\n").unwrap();
